@@ -8,6 +8,7 @@ package props
 import (
 	"bytes"
 	"encoding/json"
+	"expvar"
 	"fmt"
 	"net/url"
 	"sort"
@@ -250,4 +251,18 @@ func hxSortedKeys[V any](m map[string]V) []string {
 	}
 	sort.Strings(ks)
 	return ks
+}
+
+// hxExpvar reads an integer counter of one of rqlite's expvar maps (process
+// global: use differences within a run).
+func hxExpvar(mapName, key string) int64 {
+	m, ok := expvar.Get(mapName).(*expvar.Map)
+	if !ok {
+		return 0
+	}
+	v, ok := m.Get(key).(*expvar.Int)
+	if !ok {
+		return 0
+	}
+	return v.Value()
 }
